@@ -94,6 +94,9 @@ type Env struct {
 	midAt      int
 	midAtFault bool
 	commitRW   *rwState
+	// MidAtFaultSlot > 0: every commit during which an injected fault is armed begins a reader in this slot at
+	// the failing call (used by the fault enumeration of C08)
+	MidAtFaultSlot int
 
 	// fault bookkeeping
 	MetaWrittenInCommit bool     // a meta page write was issued by the commit in progress
@@ -662,7 +665,9 @@ func (e *Env) apply(op Op) *Violation {
 		e.MetaWrittenInCommit = false
 		e.commitRW = rw
 		e.midSlot, e.midAt, e.midAtFault = 0, 0, false
-		if op.Tx > 0 && e.RO[op.Tx] == nil {
+		if e.MidAtFaultSlot > 0 && e.FaultArmed() && e.RO[e.MidAtFaultSlot] == nil {
+			e.midSlot, e.midAtFault = e.MidAtFaultSlot, true
+		} else if op.Tx > 0 && e.RO[op.Tx] == nil {
 			e.midSlot = op.Tx
 			if op.Note == "atfault" {
 				e.midAtFault = true
